@@ -141,6 +141,55 @@ def drive_bad(a, rng):
     return out
 
 
+def drive_weight_specs(seed, n):
+    """json_to_weights on patterned specifications {physical, expand, vaxes, default}: the result
+    must denote the tensor the specification describes (judged by Trace_Tensor / Axes.tla)."""
+    import torch
+    from fggs import formats
+    from .. import pt as PT
+    from . import c06
+    rng = rng_for(seed, 'c14w')
+    cases = []
+    for i in range(n):
+        nd = rng.choice([1, 2, 2, 3])
+        types = [PT.gen_type(rng, {1: 6, 2: 4, 3: 3}[nd]) for _ in range(nd)]
+        st = PT.gen_pattern(rng, types, default=rng.choice([0.0, 0.0, 1.0, 5.0, math.inf, -math.inf]),
+                            scheme=rng.choice(['distinct', 'small', 'special']))
+        ps = st['ps']
+        nexp = 1 if (ps and rng.random() < 0.35 and ps[0]['n'] > 0) else 0
+        shape = [p['n'] for p in ps]
+        if nexp:      # make the values constant along the first physical axis: it becomes an "expand" axis
+            inner = 1
+            for x in shape[1:]:
+                inner *= x
+            st['ph'] = [st['ph'][k % inner] for k in range(len(st['ph']))] if inner else st['ph']
+        t = torch.tensor(st['ph'], dtype=torch.float64).reshape(shape)
+        phys = (t[0] if nexp else t).tolist()
+        pos = {p['id']: k for k, p in enumerate(ps)}
+
+        def jax(e):
+            if e['k'] == 'P':
+                return pos[e['id']]
+            if e['k'] == 'X':
+                return [jax(f) for f in e['fs']]
+            return {'before': e['b'], 'term': jax(e['t']), 'after': e['a']}
+        spec = {'physical': phys, 'vaxes': [jax(e) for e in st['vs']], 'default': st['d']}
+        if nexp:
+            spec['expand'] = [shape[0]]
+        c = {'kind': 'dense', 'st': PT.encode_struct(st), 'out': 'ok', 'rb': PT.encode_struct(st), 'obs': {'shape': [], 'flat': []},
+             'tag': ['json_to_weights', 'expand' if nexp else 'plain']}
+        try:
+            text = json.dumps(spec)
+            w = formats.json_to_weights(json.loads(text))
+            c['rb'] = PT.readback(w)
+            c['obs'] = c06.obs_of(w)
+        except Exception as e:  # noqa
+            c['out'] = 'raise:' + type(e).__name__
+            c['err'] = str(e)[:150]
+        cases.append(c)
+    return cases
+
+
 def _drive(args):
     a, i, seed = args
     rng = rng_for(seed, f'c14-{i}')
@@ -170,6 +219,12 @@ def run(tier, seed):
         o.states += st
         o.transitions += tr
         o.absorb_verdicts(cases, verdicts, load_findings())
+        wcases = drive_weight_specs(seed, 150 if tier == 'quick' else 3000)
+        wv, st, tr, _ = judge_batch(work / 'wjudge', 'Trace_Tensor', wcases, per_shard_min=200)
+        o.states += st
+        o.transitions += tr
+        o.absorb_verdicts(wcases, wv, load_findings(), part='json_to_weights')
+        o.extra['weight_specifications'] = len(wcases)
         kinds = {}
         for c in cases:
             k = '/'.join(c['tag'][:2])
